@@ -111,6 +111,9 @@ def cases(tier, rng):
             for b in ["G", "Bb", "F#", "C", "E#", "Abb", "D"]:
                 yield Case("chords.from_shorthand", [r + k + "/" + b], "slash", kind=("slash", r, k, b))
             yield Case("chords.from_shorthand", [r + k + "/H"], "slash/bad-bass", kind=("slashbad",))
+        # near-miss bass names: a valid name with a line end, blank, NUL or octave glued on (what `$`, strip() or int() let through)
+        for b in ["G\n", "Bb\n", "G#\r\n", "G ", " G", "\nG", "G\r", "G\x00", "G\t", "g", "G-4", "Gn", "G\u2028", "Gb\n\n"]:
+            yield Case("chords.from_shorthand", ["C" + k + "/" + b], "slash/near-miss-bass", kind=("slashbad",))
         yield Case("chords.meaning", [k], "meaning")
     for k1 in REPS:
         for k2 in REPS:
